@@ -442,7 +442,10 @@ func init() {
 
 	// ---------- base64 / hashes ----------
 	reg("(*encoding/base64.Encoding).EncodeToString", func(ex *Exec, fn *ssa.Function, a []Value) Value {
-		return UF("b64enc", SSeq, ex.bytesTerm(a[1]))
+		x := ex.bytesTerm(a[1])
+		r := UF("b64enc", SSeq, x)
+		ex.assume(Ge(SeqLen(r), SeqLen(x))) // every base64 variant: at least one character per byte
+		return r
 	})
 	reg("(*encoding/base64.Encoding).DecodeString", func(ex *Exec, fn *ssa.Function, a []Value) Value {
 		s := a[1].(*Term)
